@@ -27,6 +27,10 @@ pub fn case(nontrivial: bool) {
 pub fn run(pid: &str, tier: &str, seed: u64) {
   match pid {
     "C01" => crate::o_star::c01(tier, seed),
+    "C02" => crate::o_star::c02(tier, seed),
+    "C05" => crate::o_star::c05(tier, seed),
+    "C10" => crate::o_ggm::c10(tier, seed),
+    "C11" => crate::o_ggm::c11(tier, seed),
     "C16" => crate::o_star::c16(tier, seed),
     "C06" => crate::o_sharks::c06(tier, seed),
     "C07" => crate::o_sharks::c07(tier, seed),
